@@ -61,6 +61,7 @@ func determinismMem(r *Run) {
 	w := GenWorld(r, GenOpts{Par1: par1Set, MaxFiles: 6, MaxTotal: 72 << 10, MaxR: 6})
 	base := w.Disk.Clone()
 	var canon map[string][]byte
+	canonFailed, mayFail := false, false
 	create := func(label string, paths []string, index string, g int, spec SchedSpec) {
 		w2 := *w
 		w2.Disk = base.Clone()
@@ -76,16 +77,19 @@ func determinismMem(r *Run) {
 		for _, v := range c.SchedV {
 			r.Violate(v.Kind, "Create (%s): %s", label, v.Detail)
 		}
-		if c.Err != nil {
-			r.Violate("outputs-differ", "%s: Create failed (%v) where the canonical run succeeded", label, c.Err)
-		}
 		got := writesOf(c)
 		if canon == nil {
 			canon = got
-			if len(canon) == 0 {
+			canonFailed = c.Err != nil
+			if canonFailed && !mayFail {
+				r.Violate("create-failed", "canonical Create failed: %v", c.Err)
+			} else if len(canon) == 0 && !mayFail {
 				r.Violate("create-failed", "Create wrote nothing")
 			}
 			return
+		}
+		if (c.Err != nil) != canonFailed {
+			r.Violate("outputs-differ", "%s: Create returned %v where the canonical run returned failed=%v", label, c.Err, canonFailed)
 		}
 		if d := diffFileSets(canon, got); d != "" {
 			r.Violate("outputs-differ", "%s: %s", label, d)
@@ -114,6 +118,31 @@ func determinismMem(r *Run) {
 		w.Files[0].Data = data
 		base.Put(w.Path(0), data)
 		r.Probe("file>=1MiB")
+	}
+	if !par1Set && len(w.Files) >= 2 && t.Bool(1, 60, "beyond-the-slice-limit") {
+		// a set that needs somewhat more than the format's 32768 slices at
+		// the requested slice size (and just under it at twice or four
+		// times that size): whatever Create does about it - refuse, or
+		// choose a larger slice size - it must do the same for every order
+		// and spelling of the same inputs
+		w.S = 4
+		k := 1 + t.Draw(2, "doublings")
+		s2 := w.S << uint(k)
+		others := 0
+		for _, f := range w.Files[1:] {
+			others += (len(f.Data) + s2 - 1) / s2
+		}
+		if others < 2000 {
+			want := 32768 - others - t.Draw(len(w.Files)+2, "margin")
+			data := expandContent(ckRandom, t.Draw64(0, "limit-seed"), want*s2-t.Draw(s2, "limit-tail"), 64)
+			w.Files[0].Data = data
+			base.Put(w.Path(0), data)
+			if w.R > 3 {
+				w.R = 1 + t.Draw(3, "limit-R")
+			}
+			mayFail = true
+			r.Probe("inputs-beyond-the-slice-limit")
+		}
 	}
 	if !par1Set && t.Bool(1, 120, "big-volumes") {
 		// recovery volumes of several MiB holding several blocks each
